@@ -280,6 +280,20 @@ pub fn run_case(ctx: &mut Ctx, case: &Value, c09: bool) {
             }
         }
     }
+    // a `cnf` in another form than the bare JWK (RFC 7800's `{"jwk": ..}`, a key id, a thumbprint, an empty object):
+    // whichever way a verifier reads it - a key named another way, or a confirmation it cannot use - the token is not
+    // an unbound one: a presentation WITHOUT a key-binding JWT is rejected
+    for (label, cnf3) in [("cnf-wrapped-jwk", json!({"jwk": keys::holder_jwk()})), ("cnf-kid-only", json!({"kid": "holder-key-1"})), ("cnf-empty-object", json!({})), ("cnf-jkt", json!({"jkt": "NzbLsXh8uDCcd-6MNwXF4W_7noWXFZAfHkxZsRGC9Xs"}))] {
+        let mut payload3 = ic.payload.clone();
+        payload3["cnf"] = cnf3;
+        let mut header = Header::new(ic.alg.clone());
+        header.typ = Some("sd-jwt".to_string());
+        if let Out::Ok(jwt3) = real::sign(&header, &payload3, &keys::enc_key(keys::family(&ic.alg), 0)) {
+            let prefix3 = format!("{}~{}{}", jwt3, pdiscs.join("~"), if pdiscs.is_empty() { "" } else { "~" });
+            judge(ctx, &ic, &prefix3, Some(&policy_aud), false, false, &format!("{}:no-kb", label), case);
+            judge(ctx, &ic, &prefix3, None, false, false, &format!("{}:no-kb:no-policy", label), case);
+        }
+    }
     // with a policy that configures no audience, a KB-JWT for any audience is acceptable
     if let Some(k) = craft_kb(Some("kb+jwt"), kb_alg.clone(), &with("aud", json!("https://other.example")), 1) {
         judge(ctx, &ic, &format!("{}{}", prefix, k), Some(&policy_noaud), true, true, "crafted:aud-other:policy-no-aud", case);
